@@ -676,4 +676,76 @@ example : ∃ out, ballRangeQ (onDim 2 mL2) (ballIndex (onDim 2 mL2) (fun _ => r
 
 end examples2
 
+/-! ### `LpDist`: lawful for every exponent `p ≥ 1`, not a metric below 1 -/
+section lp
+
+/-- **`LpDist(p)` is lawful for every `p ≥ 1`** on the points of any fixed dimension (over ℝ,
+`x.powf(y)` = the real power `x ^ y`): distance `(Σ |aᵢ-bᵢ|^p)^(1/p)` — the very `lp` loop of
+`Model/NN.lean`, which `GenC07.lp_distance_is_model` ties to the text of `LpDist::distance` — is
+non-negative and satisfies the triangle inequality (Minkowski); `LpDist` has no reduced form, the
+conversions are the identity. -/
+theorem mLp_lawful {p : ℝ} (hp : 1 ≤ p) (d : Nat) : Lawful (onDim d (mLp p)) where
+  dist_nonneg a b := lp_nonneg p a.1 b.1
+  triangle a b c := lp_triangle hp a.1 b.1 c.1 (by rw [a.2, b.2]) (by rw [b.2, c.2])
+  rdist_eq a b := rfl
+  toR_strictMono a b _ hab := hab
+  ofR_toR a _ := rfl
+
+/-- the remaining metric axioms (not needed by the search, recorded for completeness): symmetry
+for every exponent, and distance 0 from a point to itself for `p > 0` -/
+theorem lp_symm_self (p : ℝ) (a b : List ℝ) :
+    lp p a b = lp p b a ∧ (0 < p → lp p a a = 0) :=
+  ⟨lp_symm p a b, fun hp => lp_self hp a⟩
+
+/-- **below 1 the triangle inequality fails** (so `LpDist(p)`, `p < 1`, is not a distance in the
+sense of the trait's documentation and the pruning of the ball tree is unsound for it): `p = 1/2`,
+a = (0,0), b = (1,0), c = (1,1): d(a,c) = (1+1)² = 4 > d(a,b) + d(b,c) = 1 + 1. -/
+theorem lp_half_not_triangle :
+    ¬ (lp (1 / 2 : ℝ) [0, 0] [1, 1] ≤ lp (1 / 2 : ℝ) [0, 0] [1, 0] + lp (1 / 2 : ℝ) [1, 0] [1, 1]) := by
+  have h2 : (1 : ℝ) / (1 / 2) = 2 := by norm_num
+  have hz : (0 : ℝ) ^ (1 / 2 : ℝ) = 0 := Real.zero_rpow (by norm_num)
+  simp only [lp_real, List.zipWith_cons_cons, List.zipWith_nil_right, List.foldl_cons,
+    List.foldl_nil, h2]
+  norm_num [hz]
+
+/-- **the search theorems hold for `LpDist(p)`, `p ≥ 1`**: for every kind of index, both build
+forms, every batch of `d`-dimensional points, leaf size ≥ 1, `ncols ≥ 1`, query, `k` and radius: the
+k-nearest call returns `KNearest`, the range call returns exactly the points with `lp p q x < r`
+(`r ≥ 0`), and any two kinds agree. -/
+theorem lp_indices_correct {p : ℝ} (hp : 1 ≤ p) (d : Nat)
+    (mean : List {l : List ℝ // l.length = d} → {l : List ℝ // l.length = d})
+    (split : List (Pt {l : List ℝ // l.length = d}) →
+      Option (List (Pt {l : List ℝ // l.length = d}) × {l : List ℝ // l.length = d} ×
+        List (Pt {l : List ℝ // l.length = d})))
+    (hs : SplitPerm split) (k1 k2 : Kind) (f1 f2 : Form) (ncols : Nat) (hl1 : 0 < f1.leafSize)
+    (hl2 : 0 < f2.leafSize) (hc : 0 < ncols) (rows : List {l : List ℝ // l.length = d})
+    (q : {l : List ℝ // l.length = d}) (k : Nat) (r : ℝ) :
+    (∃ out, knnRequest (onDim d (mLp p)) mean split k1 f1 ncols rows ncols q k = .ok out ∧
+      KNearest (onDim d (mLp p)) q (enumerate rows) out k) ∧
+    (∃ out, rangeRequest (onDim d (mLp p)) mean split k1 f1 ncols rows ncols q r = .ok out ∧
+      out.Perm (linearRange (onDim d (mLp p)) q r (enumerate rows)) ∧
+      (0 ≤ r → ∀ x, x ∈ out ↔ x ∈ enumerate rows ∧ lp p q.1 x.1.1 < r)) ∧
+    (∃ o1 o2, knnRequest (onDim d (mLp p)) mean split k1 f1 ncols rows ncols q k = .ok o1 ∧
+      knnRequest (onDim d (mLp p)) mean split k2 f2 ncols rows ncols q k = .ok o2 ∧
+      o1.map (fun x => lp p q.1 x.1.1) = o2.map (fun x => lp p q.1 x.1.1)) ∧
+    (∃ o1 o2, rangeRequest (onDim d (mLp p)) mean split k1 f1 ncols rows ncols q r = .ok o1 ∧
+      rangeRequest (onDim d (mLp p)) mean split k2 f2 ncols rows ncols q r = .ok o2 ∧ o1.Perm o2) :=
+  ⟨common_knn_correct (mLp_lawful hp d) mean split hs k1 f1 ncols hl1 hc rows q k,
+    common_range_correct (mLp_lawful hp d) mean split hs k1 f1 ncols hl1 hc rows q r,
+    (common_agree (mLp_lawful hp d) mean split hs k1 k2 f1 f2 ncols hl1 hl2 hc rows q k r).1,
+    (common_agree (mLp_lawful hp d) mean split hs k1 k2 f1 f2 ncols hl1 hl2 hc rows q k r).2⟩
+
+-- non-vacuity: exponent 3 (and 5/2) on 2-dimensional points, ball tree against the default-form k-d
+-- tree; `1 ≤ p` is satisfiable, `SplitPerm splitFirst` holds
+example : Lawful (onDim 2 (mLp (5 / 2 : ℝ))) := mLp_lawful (by norm_num) 2
+example : ∃ out, knnRequest (onDim 2 (mLp (3 : ℝ))) (fun _ => r2 0 0) splitFirst .ball (.leaf 1) 2
+      [r2 3 4, r2 1 1, r2 6 8, r2 1 1] 2 (r2 0 0) 3 = .ok out ∧
+    KNearest (onDim 2 (mLp (3 : ℝ))) (r2 0 0) (enumerate [r2 3 4, r2 1 1, r2 6 8, r2 1 1]) out 3 :=
+  (lp_indices_correct (by norm_num) 2 _ splitFirst splitFirst_perm .ball .kd (.leaf 1) .default 2
+    (by decide) (by decide) (by decide) _ _ 3 1).1
+example : lp (3 : ℝ) [3, 4] [0, 0] = lp (3 : ℝ) [0, 0] [3, 4] ∧ ((0 : ℝ) < 3 → lp (3 : ℝ) [3, 4] [3, 4] = 0) :=
+  lp_symm_self 3 [3, 4] [0, 0]
+
+end lp
+
 end LinfaSpec.Props.C07
